@@ -252,6 +252,13 @@ func (ch c04) Run(c *core.Ctx) {
 				c.Violate("spin", fmt.Sprintf("server keeps using a finished transport (%s, fault %s)", s.Name, what), fmt.Sprintf("%d transport calls after EOF/error at position %d", st.AfterEnd, pos), cs)
 				return false
 			}
+			if conn.TempFired() > 2000 {
+				c.Violate("spin", fmt.Sprintf("server answers every temporary read error with another read (%s, fault %s)", s.Name, what), fmt.Sprintf("%d temporary errors delivered from read %d on, the connection was never given up", conn.TempFired(), pos), cs)
+				return false
+			}
+			if conn.TempFired() > 0 {
+				c.Count("transient_faults_delivered", int64(conn.TempFired()))
+			}
 			if plan != nil {
 				c.Count("fault_runs", 1)
 				c.Eval(fmt.Sprintf("%s|%s|%d", s.Name, what, pos), true)
@@ -288,6 +295,20 @@ func (ch c04) Run(c *core.Ctx) {
 			okAll = run(func(cn *tr.Conn) { cn.FailWriteAt = k }, "write-error", k) &&
 				run(func(cn *tr.Conn) { cn.FailWriteAt = k; cn.ShortWrite = true }, "short-write", k)
 			c.Count("write_faults", 2)
+		}
+		// transient faults: a read that times out once (the transport stays usable), reads that time out
+		// for good (a deadline that has passed: the transport has failed although every error claims to
+		// be temporary), a write interrupted half-way with a temporary error
+		for k := 1; k <= st.Reads+1 && okAll; k++ {
+			k := k
+			okAll = run(func(cn *tr.Conn) { cn.TempReadAt = k }, "temporary-read-error-once", k) &&
+				run(func(cn *tr.Conn) { cn.TempReadFrom = k }, "reads-time-out-for-good", k)
+			c.Count("transient_read_faults", 2)
+		}
+		for k := 1; k <= st.Writes && okAll; k++ {
+			k := k
+			okAll = run(func(cn *tr.Conn) { cn.TempWriteAt = k }, "write-interrupted-half-way", k)
+			c.Count("transient_write_faults", 1)
 		}
 		for n := 0; n <= st.Consumed && okAll; n++ {
 			n := n
